@@ -138,12 +138,14 @@ def renderTermToks : PTerm → List Tok
   | .param n => [.param n]
   | .var n => [.var n]
   | .int ds => [.int ds]
+  | .negInt ds => [.op "-", .int ds]
   | .str s => [.str s]
   | .date s => [.date s]
   | .bytes ds => [.hex ds]
   | .bool b => [.bool b]
   | .set elts => [.punct '['] ++ joinToks (elts.map fun t => match t with
-      | .param n => [Tok.param n] | .var n => [.var n] | .int ds => [.int ds] | .str s => [.str s]
+      | .param n => [Tok.param n] | .var n => [.var n] | .int ds => [.int ds]
+      | .negInt ds => [.op "-", .int ds] | .str s => [.str s]
       | .date s => [.date s] | .bytes ds => [.hex ds] | .bool b => [.bool b] | .set _ => []) ++ [.punct ']']
 where
   joinToks : List (List Tok) → List Tok
